@@ -15,6 +15,13 @@ def firstDiff (a b : List String) : String :=
   | some (x, y) => s!"`{x}` vs fresh `{y}`"
   | none => s!"length {a.length} vs {b.length}"
 
+/-- the bytes of the stream of type `ty`, if the directory has one -/
+def rawStream (i : Img) (ty : Nat) : Option Bytes := do
+  let h ← decodeHeader i
+  let dir ← decodeDirectory i h
+  let d ← dir.find? (fun d => d.ty == ty)
+  i.bytes d.rva d.size
+
 def run (kv : List (String × String)) : IO Res := do
   if get kv "kind" == some "spawnfail" then return .bad "spawn"
   let some cfg := (get kv "cfg").bind parseCfg | return .bad "cfg"
@@ -45,6 +52,16 @@ def run (kv : List (String × String)) : IO Res := do
     let some can := canonical img | return .propfail s!"dump #{j} of the reused writer does not decode" tags
     if can != fcan then
       return .propfail s!"dump #{j} of the reused writer differs from a fresh writer's dump: {firstDiff can fcan}" tags
+    -- the last request and the fresh writer's see the same (parked) target: the copies of the target's files that do
+    -- not change by themselves must be the same bytes (the target's limits were changed just before that request)
+    if j + 1 == imgs.length then
+      if get kv "mutated" == some "1" then tags := "target.mutated" :: tags
+      for ty in [ST_LINUX_LSB_RELEASE, ST_LINUX_CMD_LINE, ST_LINUX_ENVIRON, ST_LINUX_AUXV, ST_LINUX_MAPS, ST_MOZ_LINUX_LIMITS] do
+        let a := rawStream img ty
+        let b := rawStream fimg ty
+        if a != b then
+          return .propfail s!"the last dump of the reused writer copies stream {ty} differently from a fresh writer's dump of the same target ({(a.getD []).length} vs {(b.getD []).length} bytes)" tags
+      tags := "raw.compared" :: tags
     j := j + 1
   return .ok tags (some s!"{results.length}/{cfg.crash.isSome}/{cfg.app.length}/{cfg.principal.isSome}/{cfg.sanitize}/{cfg.limit.isSome}/{fcan.length}")
 
